@@ -95,6 +95,21 @@ func runC09(p *core.Prog, r *core.Report) {
 				}
 			}
 		})
+		// replay refuses nothing the execution path accepts: the only failures of ApplyOps are the decoding error and
+		// Flush's own error (the log was produced by Flush on the original run; any extra validation is a way for the
+		// cached branch to fail where execution succeeded — e.g. delete_prefix("") carries an empty Key)
+		foreign := ""
+		core.Instrs(fn, func(in ssa.Instruction) {
+			rt, ok := in.(*ssa.Return)
+			if !ok || core.ReturnsNilError(rt) {
+				return
+			}
+			src := core.Trace(core.ResolveCell(rt.Results[len(rt.Results)-1]), 0)
+			if !(src.HasCallNamed("Unmarshal") || src.HasCallNamed("UnmarshalVT") || src.HasCall(p.FuncObj(pkgStore, "baseStore.Flush"))) {
+				foreign = p.Pos(rt.Pos())
+			}
+		})
+		r.Check(foreign == "", "C09.R1", "ApplyOps/no-extra-failure", "replaying a log fails only if it cannot be decoded or if Flush itself fails: ApplyOps adds no validation of its own (every log the execution path wrote is replayable)", "an error return of ApplyOps comes from neither the decoder nor Flush: "+foreign, p.Pos(fn.Pos()))
 		r.Check(retOK, "C09.R1", "ApplyOps/flush-error", "the error of the replayed Flush is returned to the caller", "Flush's result is not returned", p.Pos(fn.Pos()))
 	})
 
